@@ -165,7 +165,8 @@ def run(p: Program, rep: Report, tier: str) -> None:
         "emits as ETag / Last-Modified. R2.4 the 400/416 path forwards the exception's status/headers, opens nothing, and 416 "
         "carries '*/size'. R2.5 (ASGI) every descriptor opened is closed on every exit. R2.6 (ASGI fallback sender) with a byte count every "
         "read is clamped by the remaining count (no fall-back operand) and the loop's stop condition is computed from the count "
-        "bookkeeping. NOT decided: that the chunk loops read exactly end-start bytes for every chunk_size alignment (integer "
+        "bookkeeping. R2.7 merged ranges are the hull. R2.8 every response owns its header store (Headers.__init__ builds a fresh dict, never "
+        "aliases its argument): the framing headers written for one request cannot appear on another response. NOT decided: that the chunk loops read exactly end-start bytes for every chunk_size alignment (integer "
         "run-time arithmetic)."
     )
     rep.assume("header text of the multipart parts is Latin-1/ASCII: one byte per character (boundary is [a-z0-9]{13}, numbers, content type)")
@@ -363,7 +364,25 @@ def run(p: Program, rep: Report, tier: str) -> None:
             rep.ok("R2.2", f"{side}: the whole-file reader covers [0, file_size)")
         else:
             rep.violation("R2.2", construct(ha, text="whole-file reader"), where(ha), f"{side}: the whole-file reader does not cover the file from 0 to file_size")
-    rep.require_instances("R2.2", 10)
+    # the size/mtime that frame the response are those of the file that is opened: open() follows symbolic links, so the
+    # fallback stat of the constructor must too (os.stat, not os.lstat)
+    for side in ("wsgi", "asgi"):
+        fr_init = p.cls(f"baize.{side}.responses:FileResponse").methods.get("__init__")
+        if fr_init is None:
+            raise AnalysisError(f"{side} FileResponse.__init__ vanished")
+        stats = [(c, p.resolve_call(fr_init, c)) for c in calls_in(fr_init) if isinstance(p.resolve_call(fr_init, c), tuple) and p.resolve_call(fr_init, c)[0] == "ext"
+                 and p.resolve_call(fr_init, c)[1] in ("os.stat", "os.lstat", "os.fstat", "os.path.getsize")]
+        if not stats:
+            rep.undecide("R2.2", f"{side} FileResponse.__init__: no stat call found")
+        for c, r in stats:
+            arg_ok = c.args and ast.unparse(c.args[0]) == fr_init.params[1]
+            if r[1] == "os.stat" and arg_ok:
+                rep.ok("R2.2", f"{side}: FileResponse stats the path it will open with os.stat (links followed, like open)")
+            else:
+                rep.violation("R2.2", construct(fr_init, text=f"{r[1]}({ast.unparse(c.args[0]) if c.args else ''})"), where(fr_init, c),
+                              f"{side}: FileResponse takes size and validators from {r[1]}(...) although the body is read through open(): for a path whose last component is a symbolic link the "
+                              "Content-Length / ranges / ETag describe the link, not the bytes that are sent")
+    rep.require_instances("R2.2", 12)
 
     # ---------------------------------------------------------------- R2.3 / R2.4 __call__
     jr = mixin.methods.get("judge_if_range")
@@ -635,3 +654,15 @@ def run(p: Program, rep: Report, tier: str) -> None:
     if not merges:
         rep.undecide("R2.7", "parse_range: no in-place replacement of a result interval found (merge idiom not recognised)")
     rep.require_instances("R2.7", 1)
+    # ---------------------------------------------------------------- R2.8 the header mapping's constructor (shared rule, sa/props/hdr_common.py)
+    from .hdr_common import headers_ctor_own_store
+    for _f in (headers_ctor_own_store,):
+        for kind, fn_, node, cons, msg in _f(p):
+            if kind == "ok":
+                rep.analysed(fn_.fq)
+                rep.ok("R2.8", msg)
+            elif kind == "undecided":
+                rep.undecide("R2.8", msg)
+            else:
+                rep.violation("R2.8", construct(fn_, text=cons), where(fn_, node), msg)
+    rep.require_instances("R2.8", 1)
